@@ -31,7 +31,7 @@ package payment
 //@                                   && nonceOK == old(nonceOK) && nonceID == old(nonceID) && nonceVal == old(nonceVal)
 //@ ensures [signature-first] {C06} !authOK ==> p.NonceStore.nonce == old(p.NonceStore.nonce) && effects == old(effects)
 //@ ensures [one-effect] err == nil ==> effects == old(effects) + 1
-//@ modifies authOK, authMethod, authID, authNonce, authArgs, nonceOK, nonceID, nonceVal, p.NonceStore.nonce, effects
+//@ modifies authOK, authMethod, authID, authNonce, authArgs, nonceOK, nonceID, nonceVal, p.NonceStore.nonce, effects, lastJSON, lastAddr, clock, alloc
 
 //@ func (*PaymentService).AddNode
 //@ property C04 C06 C01 C15
